@@ -72,6 +72,7 @@ theorem numText_noMinus (a : Amount) (h : a.wf = true) : ([0x2D] : Bytes).isPref
 
 /-! ### amount, posting -/
 
+set_option linter.unusedSimpArgs false in
 /-- **`parseAmount` on the tokens of an amount** (followed by the line's Newline token). -/
 theorem parseAmount_toks (a : Amount) (h : a.wf = true) (ln o pre : Nat) (x : Token) (R : List Token)
     (errs : List ParseError) (dy : Int) (hx : x.ty = .newline)
@@ -113,7 +114,7 @@ theorem parsePosting_toks (p : Posting) (hp : p.wf = true) (ln o : Nat) (R : Lis
     unfold parsePosting
     simp only [stOf_cons, tokP, ne_eq, not_true_eq_false, if_false, advance_cons, reduceCtorEq, or_self]
     unfold postingOpen
-    simp only [reduceCtorEq, if_false, ne_eq, not_true_eq_false, advance_cons]
+    simp only [reduceCtorEq, if_false, not_true_eq_false, advance_cons]
     unfold postingTail postingClosing postingAmount postingCost postingAssertion lineComment
     simp only [reduceCtorEq, if_false, or_self, nlP_ty, toRange, nlP_pos]
     simp [Posting.expected, hamtv]
@@ -138,7 +139,7 @@ theorem parsePosting_toks (p : Posting) (hp : p.wf = true) (ln o : Nat) (R : Lis
     unfold parsePosting
     simp only [stOf_cons, tokP, ne_eq, not_true_eq_false, if_false, advance_cons, reduceCtorEq, or_self]
     unfold postingOpen
-    simp only [reduceCtorEq, if_false, ne_eq, not_true_eq_false, advance_cons]
+    simp only [reduceCtorEq, if_false, not_true_eq_false, advance_cons]
     unfold postingTail postingClosing postingAmount postingCost postingAssertion lineComment
     simp only [reduceCtorEq, if_false, hty, if_true, hpa, nlP_ty, or_self, toRange, nlP_pos]
     simp [Posting.expected, hamtv]
